@@ -1,4 +1,5 @@
 import Abyss.Props.C06
+import Abyss.Props.C06Bound
 #print axioms Abyss.C06_partition
 #print axioms Abyss.C06_tiling
 #print axioms Abyss.C06_no_overlap
@@ -9,3 +10,9 @@ import Abyss.Props.C06
 #print axioms Abyss.C06_delete_no_growth
 #print axioms Abyss.C06_walk_terminates
 #print axioms Abyss.C06_reachable
+#print axioms Abyss.C06_bounded_by_live_set
+#print axioms Abyss.C06_bounded_by_live_set_from
+#print axioms Abyss.C06_file_length_bounded
+#print axioms Abyss.Spec.peak_le
+#print axioms Abyss.addPiece_count
+#print axioms Abyss.AReach.bound
